@@ -59,12 +59,13 @@ def handpicked_configs(scheme):
             out.append((f"k{k}-l{l}-mfs{mfs}-id{isz}", {"param_k": k, "param_l": l, "param_max_file_size": mfs,
                                                         "param_identifier_size": isz}))
     elif scheme == "CT14.Pi":
-        for k, kp, l, isz in ((8, 16, 8, 4), (16, 24, 16, 8), (20, 32, 32, 16), (48, 16, 16, 4), (32, 32, 8, 8)):
+        for k, kp, l, isz in ((8, 16, 8, 4), (16, 24, 16, 8), (20, 32, 32, 16), (48, 16, 16, 4), (32, 32, 8, 8),
+                              (32, 32, 32, 1), (16, 16, 16, 2)):
             out.append((f"k{k}-kp{kp}-l{l}-id{isz}", {"param_k": k, "param_k_prime": kp, "param_l": l,
                                                       "param_identifier_size": isz}))
     elif scheme == "ANSS16.Scheme3":
         for lam, k, l, lp, isz in ((8, 16, 8, 8, 4), (16, 24, 16, 32, 8), (48, 32, 32, 16, 4), (32, 16, 8, 32, 8),
-                                   (16, 16, 16, 16, 4)):
+                                   (16, 16, 16, 16, 4), (32, 32, 32, 32, 1), (16, 16, 8, 8, 2)):
             out.append((f"lam{lam}-k{k}-l{l}-lp{lp}-id{isz}",
                         {"param_lambda": lam, "param_k": k, "param_k_prime": k, "param_l": l, "param_l_prime": lp,
                          "param_identifier_size": isz}))
@@ -109,11 +110,11 @@ def random_config(scheme, rng):
                 "param_identifier_size": c([4, 8, 16])}
     if scheme == "CT14.Pi":
         return {"param_k": c([8, 16, 20, 32, 48]), "param_k_prime": c([16, 24, 32]), "param_l": c([8, 16, 32]),
-                "param_identifier_size": c([4, 8, 16])}
+                "param_identifier_size": c([1, 2, 4, 8, 16])}
     if scheme == "ANSS16.Scheme3":
         k = c([16, 24, 32])
         return {"param_lambda": c([8, 16, 32, 48]), "param_k": k, "param_k_prime": k, "param_l": c([8, 16, 32]),
-                "param_l_prime": c([8, 16, 32]), "param_identifier_size": c([4, 8])}
+                "param_l_prime": c([8, 16, 32]), "param_identifier_size": c([1, 2, 4, 8])}
     if scheme == "DP17.Pi":
         return {"param_lambda": c([16, 24, 32]), "param_actual_storage_level_ratio": c([0.1, 0.2, 0.5, 1.0]),
                 "param_L": c([1, 2, 3, 8]), "param_identifier_size": c([4, 8, 16]), "hash_h": c(["SHA1", "sha256", "md5"])}
